@@ -384,12 +384,27 @@ class PropertyCheck:
     def report_violation(self, key, label, viol, ob):
         viol = dict(viol)
         viol["function"] = key
-        k = self.match_known(viol)
-        if k is not None:
-            if k["id"] not in [x["id"] for x in self.known]:
-                self.known.append(k)
-                self.say(f"KNOWN-FINDING: property={self.pid} {k['id']} {k['what_fails']}")
+        # labels explained by a listed finding are set aside; anything left is still a violation
+        remaining = list(viol.get("failed", []))
+        for e in self.known_entries:
+            m = e.get("match", {})
+            if m.get("function") and m["function"] != key:
+                continue
+            pred = m.get("input_predicate")
+            try:
+                if pred and not eval(pred, {"inputs": viol.get("inputs"), "json": json}):
+                    continue
+            except Exception:
+                continue
+            covered = [f for f in remaining if any(f.startswith(x) for x in m.get("failed_any", []))]
+            if covered:
+                remaining = [f for f in remaining if f not in covered]
+                if e["id"] not in [x["id"] for x in self.known]:
+                    self.known.append(e)
+                    self.say(f"KNOWN-FINDING: property={self.pid} {e['id']} {e['what_fails']}")
+        if not remaining:
             return
+        viol["failed"] = remaining
         sig = (key, tuple(sorted(f.split("(")[0] for f in viol.get("failed", []))))
         if sum(1 for v in self.violations if v.get("function") == key) >= 3:
             return
